@@ -592,6 +592,9 @@ func main() {
 	knownSeen := map[int]bool{}
 	unknownViol := 0
 	replayDir := filepath.Join(*fVerif, "replays")
+	if os.Getenv("BSIM_NO_EVIDENCE") != "" {
+		replayDir = filepath.Join(tmpDir(), "bsim-replays-experiment")
+	}
 	os.MkdirAll(replayDir, 0o755)
 	for _, k := range keys {
 		if *fOnlyKey != "" && !strings.Contains(k, *fOnlyKey) {
@@ -728,10 +731,12 @@ func main() {
 			"a clean batch of runs is evidence, not proof: schedules and fault sequences are sampled from a seeded search",
 		},
 	}
-	os.MkdirAll(filepath.Join(*fVerif, "evidence"), 0o755)
-	eb, _ := json.MarshalIndent(ev, "", " ")
-	if err := os.WriteFile(filepath.Join(*fVerif, "evidence", *fProp+".json"), eb, 0o644); err != nil {
-		fail2("%v", err)
+	if os.Getenv("BSIM_NO_EVIDENCE") == "" { // experiments against modified trees must not overwrite the evidence
+		os.MkdirAll(filepath.Join(*fVerif, "evidence"), 0o755)
+		eb, _ := json.MarshalIndent(ev, "", " ")
+		if err := os.WriteFile(filepath.Join(*fVerif, "evidence", *fProp+".json"), eb, 0o644); err != nil {
+			fail2("%v", err)
+		}
 	}
 	fmt.Printf("bsim: %d runs (%d completed their workload, %d non-trivial, %d distinct schedules), %d steps, %d oracle evaluations, %.0f s simulated, %.1f s wall; faults fired: %v\n",
 		len(results), completed, nontrivial, len(fps), steps, checks, float64(simMS)/1000, wall, faults)
